@@ -13,7 +13,7 @@
    - a modification time equal to Go's zero time.Time, 0001-01-01T00:00:00Z
      (written as the Unix epoch),
    - PAX data of more than 1 MiB for one member (the Writer refuses). *)
-From Apko Require Import Base.Prelude Model.TarBytes.
+From Apko Require Import Base.Prelude Model.Tar Model.TarBytes Spec.TarSpec.
 Open Scope list_scope.
 
 Definition int64b (z : Z) : bool := ((- 9223372036854775808 <=? z)%Z && (z <? 9223372036854775808)%Z)%bool.
@@ -86,3 +86,15 @@ Definition read_view (m : member) : member :=
 
 (* the records that are not archive/tar's own: what the caller put in *)
 Definition user_records (m : pmap) : pmap := filter (fun kv => negb (basic_key (fst kv))) m.
+
+(* ---- the entries of Model/Tar.v ------------------------------------------------------------
+   An entry of the walk is inside the byte-level envelope when the member walkFS
+   and writeTar make of it is ([member_okb], with the content of the file as
+   body), its path has non-empty components without '/', a user / group name
+   taken from passwd / group is not empty, and the content id of the body is the
+   entry's. *)
+Definition name_present (o : option string) : bool :=
+  match o with Some s => negb (String.eqb s "") | None => true end.
+Definition entry_okb (cs : list (N * bytes)) (cid_of : bytes -> N) (e : entry) : bool :=
+  (member_okb (member_of_entry cs e) && forallb comp_ok (e_path e) && name_present (e_uname e) && name_present (e_gname e)
+   && (cid_of (snd (member_of_entry cs e)) =? e_cid e)%N)%bool.
